@@ -269,6 +269,9 @@ def getattr(I, st, v, name):
             yield st, simple("is_integer", lambda I, st: Fraction(v).denominator == 1)
             return
     if v is None:
+        if name == "__class__":  # None.__class__ is type(None)
+            yield st, BuiltinClass("NoneType", type(None))
+            return
         yield st, exc("AttributeError", "'NoneType' object has no attribute '%s'" % name)
         return
     if isinstance(v, Unknown):
